@@ -7,6 +7,9 @@ import (
 	"go/constant"
 	"go/token"
 	"go/types"
+	"os"
+	"path/filepath"
+	"runtime"
 	"sort"
 	"strings"
 	"sync"
@@ -107,6 +110,7 @@ type FnCtx struct {
 	afterFuncs     []*closureInfo
 	uuidFresh      []string
 	genPrev        map[int]*State // generation -> state before an interference havoc (havocShared)
+	interfered     bool           // an interference havoc (havocShared) occurs in this function
 	guardMu        sync.Mutex
 	cmdGuard       []string
 	guardDeps      map[string][]string
@@ -306,9 +310,15 @@ func (tr *FnCtx) havocComp(st *State, c Comp) string {
 }
 
 func (tr *FnCtx) havocAll(st *State) {
+	if os.Getenv("VERIF_DEBUG_HAVOC") != "" {
+		_, f1, l1, _ := runtime.Caller(1)
+		_, f2, l2, _ := runtime.Caller(2)
+		fmt.Fprintf(os.Stderr, "havocAll gen %d -> %d in %s from %s:%d <- %s:%d\n", st.Gen, tr.genN+1, tr.Short, filepath.Base(f1), l1, filepath.Base(f2), l2)
+	}
 	tr.genN++
 	st.Gen = tr.genN
 	st.Comps = map[string]string{}
+	st.Unframed = true
 	// ghost scalars keep a declared symbol too (fresh generation)
 }
 
@@ -335,6 +345,11 @@ func (tr *FnCtx) mergeStates(conds []string, sts []*State) *State {
 		}
 	}
 	res := &State{Comps: map[string]string{}, Gen: sts[0].Gen, LockSnap: sts[0].LockSnap, UnlockSnap: sts[0].UnlockSnap}
+	for _, s := range sts {
+		if s.Unframed {
+			res.Unframed = true
+		}
+	}
 	for _, s := range sts[1:] {
 		if s.LockSnap != res.LockSnap {
 			res.LockSnap = nil
